@@ -40,7 +40,9 @@ func (c pcell) effExplode() bool {
 	if c.Explode != nil {
 		return *c.Explode
 	}
-	return c.effStyle() == "form"
+	// deepObject has a single row in the table (explode true): a deepObject parameter that leaves explode out
+	// can only mean that row
+	return c.effStyle() == "form" || c.effStyle() == "deepObject"
 }
 
 func (c pcell) key() string {
@@ -104,6 +106,7 @@ func paramCells(loc string) []pcell {
 	if loc == "query" {
 		for _, rq := range reqs {
 			add(pcell{Style: "deepObject", Explode: bp(true), Shape: "obj", Required: rq, Kind: "styled"})
+			add(pcell{Style: "deepObject", Explode: nil, Shape: "obj", Required: rq, Kind: "styled"})
 		}
 	}
 	for _, rq := range reqs {
